@@ -35,13 +35,13 @@ Lemma merge_value_scalar fuel v tag raw st a l location reference :
   pending_from_events (S fuel) [EScalar v tag raw st a l] location reference =
   if scalar_is_nullish v st
   then POk [] (replay_with_reference [EScalar v tag raw st a l] reference)
-  else PErr (Err E_MergeValueNotMapOrSeqOfMaps l).
+  else PErr (attach_alias_locations (Err E_MergeValueNotMapOrSeqOfMaps l) reference l).
 Proof. reflexivity. Qed.
 
 Lemma merge_value_live_scalar fuel v tag raw st a l prev rest ref merge_ref :
   scalar_is_nullish v st = false ->
   pending_from_live (S fuel) (SReplay prev (EScalar v tag raw st a l :: rest) ref) merge_ref =
-  PErr (Err E_MergeValueNotMapOrSeqOfMaps l).
+  PErr (attach_alias_locations (Err E_MergeValueNotMapOrSeqOfMaps l) merge_ref l).
 Proof. intros H. cbn. rewrite H. reflexivity. Qed.
 
 (* merge batches are flushed newest first: a later `<<` entry is offered before an earlier one *)
